@@ -211,6 +211,24 @@ func (e *Engine) verifyFunction(fn *ssa.Function, spec *FuncSpec, sweep bool) *F
 		}
 		c.atReturn(fr, c.mergeExits(fr, exits), 0, 1)
 	}
+	// every anchor named by the contract must exist in the code: an assertion or ghost update
+	// attached to a call site that is no longer there would otherwise silently disappear
+	if spec != nil && len(c.unsup) == 0 {
+		check := func(a Anchor, pos, what string) {
+			if a.Kind != "before" && a.Kind != "after" && a.Kind != "latch" && a.Kind != "head" {
+				return
+			}
+			if !c.anchorSeen[anchorString(a)] {
+				c.contractStale("anchor:"+anchorString(a), pos, fmt.Errorf("%s is attached to %s, which does not occur in the function", what, anchorString(a)), nil)
+			}
+		}
+		for _, as := range spec.Asserts {
+			check(as.Anchor, as.C.Pos, "an assertion")
+		}
+		for _, g := range spec.GhostAt {
+			check(g.Anchor, g.Pos, "a ghost update")
+		}
+	}
 	return c
 }
 
@@ -415,6 +433,13 @@ func anchorMatch(decl, at Anchor) bool {
 func (c *FnCtx) runGhostAtState(fr *Frame, st *State, a Anchor) {
 	if c.spec == nil || !c.inTopScope(fr) {
 		return
+	}
+	if c.anchorSeen == nil {
+		c.anchorSeen = map[string]bool{}
+	}
+	c.anchorSeen[anchorString(a)] = true
+	if a.Kind == "before" || a.Kind == "after" {
+		c.anchorSeen[fmt.Sprintf("%s-%s#-1", a.Kind, a.Callee)] = true
 	}
 	for _, u := range c.spec.Unfolds {
 		if !anchorMatch(u.Anchor, a) {
